@@ -656,3 +656,28 @@ def c04(tier, seed):
     simple_validate("C04", v, scs, "all", "Trace_Stroke", sigfn=stroke_sig, timeout=3000)
     v.samples = [scs[0], scs[-1]]
     return v.finish()
+
+
+@prop("C09")
+def c09(tier, seed):
+    v = Verdicts("C09", tier, seed)
+    th = tier == "thorough"
+    v.rule = ("Gen_Stroke(DASH=1): the C04 polylines (integer-length segments, open and closed, 1-2 subpaths) with dash arrays of 1-6 "
+              "positive entries (odd lengths, entries longer than the whole path) and offsets of both signs and beyond the period, "
+              "widths 2-6, all caps and joins, transforms; non-trivial = at least two dash pieces and both must-paint and must-not-paint pixels")
+    v.trusted = ["harness render (harness/src/strokefam.rs)", "Dash.tla/Stroke.tla integer geometry (1/64 px, rounding bound added to the margin)"]
+    scs = []
+    for fam, nseg, sim in ((5, 2, None), (13, 2, None), (5, 3, 250 if not th else 1500), (13, 3, 100 if not th else 600)):
+        env = {"FAMILY": fam, "NSEG": nseg, "NSUB": 1, "NVAR": 2 if th else 1, "SALT": seed + 5, "DASH": 1}
+        if sim:
+            env["NSUB"] = 2
+            g, s1 = gen_scenarios("C09", "Gen_Stroke", env=env, simulate=sim, depth=12, seed=seed + fam, workers=1)
+        else:
+            g, s1 = gen_scenarios("C09", "Gen_Stroke", env=env)
+        v.add_tlc(g)
+        scs += s1
+    scs += known_scenarios("C09", "stroke")
+    v.exhaustive = th
+    simple_validate("C09", v, scs, "all", "Trace_Dash", sigfn=stroke_sig, timeout=3000)
+    v.samples = [scs[0], scs[-1]]
+    return v.finish()
